@@ -202,7 +202,7 @@ def rand_skyline(rng, ncol, holes):
 
 def random_cases(tier):
     rng = random.Random(vf.seed() * 7919 + 10)
-    want = 60 if tier == 'quick' else 1500
+    want = 200 if tier == 'quick' else 2000
     out = []
     tries = 0
     while len(out) < want and tries < want * 20:
@@ -240,10 +240,10 @@ def tlc_generate(chk, names):
     """run the generating/model-checking TLC configurations in parallel"""
     def one(name):
         t0 = time.time()
-        r = vf.tlc('Poly', 'Poly_%s.cfg' % name, workers=3, timeout=2400)
+        r = vf.tlc('Poly', 'Poly_%s.cfg' % name, workers=2, timeout=3400, heap='3g')
         return name, r, time.time() - t0
     cases = []
-    with ThreadPoolExecutor(max_workers=8) as ex:
+    with ThreadPoolExecutor(max_workers=min(len(names), 14)) as ex:
         for name, r, dt in ex.map(one, names):
             vf.tlc_ok(r, 'Poly_%s' % name)
             if r.violation:
